@@ -40,8 +40,9 @@ ASSUMPTIONS = [
     "the originator's keys)",
 ]
 
+NETWORK_FAULTS = {"duplicate", "delay", "drop", "late_before_next", "replay_earlier"}
 MANIPS = ["flip_identifier", "flip_key", "flip_auth", "flip_candidates", "flip_cid", "substitute", "swap_other",
-          "replay_earlier", "duplicate", "delay", "drop"]
+          "replay_earlier", "duplicate", "delay", "drop", "late_before_next"]
 
 
 def parse_created(msg: bytes) -> dict | None:
@@ -119,6 +120,10 @@ class Run:
                     return None
                 n = self.created_seen
                 self.created_seen += 1
+                # answers held back by "late_before_next" overtake this one: they arrive just before it
+                for (hs, hd, hdata) in self.held:
+                    w.net.inject(hs, hd, hdata, note="late, just before the next created")
+                self.held = []
                 m = manips.get(n)
                 self.wire_Y.append(cd["key"])
                 if m is None:
@@ -176,12 +181,19 @@ class Run:
                 elif kind == "drop":
                     self.applied.append((kind, n))
                     return []
+                elif kind == "late_before_next":
+                    # the answer of an attempt that will be abandoned arrives only after the retry went out, right
+                    # before the answer of the newly selected candidate
+                    self.applied.append((kind, n))
+                    self.held.append((fl.src, fl.dst, bytes(fl.data)))
+                    return []
                 self.applied.append((kind, n))
                 self.wire_Y.append(parse_created(bytes(data[29:]))["key"] if parse_created(bytes(data[29:])) else b"")
                 self.stash.append(bytes(fl.data))
                 fl.data = bytes(data)
                 return out
             self.replay_later = None
+            self.held = []
             self.attacker_s1 = None
             w.net.on_send = hook
             import random
@@ -267,6 +279,9 @@ class Run:
         w = self.w
         c = self.case
         honest = not self.applied
+        # every node honest, the network delays / duplicates / re-delivers / loses genuine answers: the exchange that is
+        # finally accepted is still an honest one, so a circuit that became ready must be keyed with the peers it names
+        only_network = bool(self.applied) and all(kind in NETWORK_FAULTS for kind, _ in self.applied)
         outcome = []
         self.keys_agree: dict[int, list] = {}
         for ci in circuits:
@@ -325,6 +340,11 @@ class Run:
                 if honest and not same:
                     self.fail("K1", "key_agreement", f"after an honest exchange the selected node does not hold the keys "
                                                      f"the originator holds for hop {k + 1}")
+                if only_network and ci.state == "READY" and not same:
+                    self.fail("K1", "key_agreement:network_faults",
+                              f"all nodes honest, answers only delayed / duplicated / lost ({self.applied}): the circuit is "
+                              f"ready, hop {k + 1} names node {node.idx}, but no tunnel at that node holds the session keys "
+                              f"the originator accepted for this hop")
             if honest and (ci.state != "READY" or len(ci.hops) != ci.goal_hops):
                 self.fail("K1", "build", f"honest build ended in state {ci.state} with {len(ci.hops)}/{ci.goal_hops} hops")
             outcome.append((ci.state, len(ci.hops)))
